@@ -258,9 +258,12 @@ def accumulation(rep, repo, mod):
             rep.violate('C13.accumulate', mod, f, acc[0] if acc else 'abuf update', f'{q}: must add nrise*a_wr + nfall*a_wf to abuf[a_loc, sim], exactly when a_loc >= 0', node=acc[0] if acc else f)
     # SimOps side: row of the output line
     smod, init = simops.simops_init(repo)
-    sites = simops.op_sites(init)
+    sites = simops.op_sites(init, tolerant=True)
     n = 0
+    opaque = [s for s in sites if s.opaque]
     for s in sites:
+        if s.opaque:
+            continue      # columns not separable statically: decided by the evaluated translation (C01.wiring, included in this check), which compares all three accumulation columns
         star = s.rest[0] if len(s.rest) == 1 and isinstance(s.rest[0], ast.Starred) else None
         o = s.out
         line = cz(o.value) if isinstance(o, ast.Attribute) and o.attr == 'index' else cz(o)
@@ -299,7 +302,7 @@ def accumulation(rep, repo, mod):
         rep.ob('C13.accumulate', f'op tuple tail {cz(star)} for output {cz(o)}', ok)
         if not ok:
             rep.violate('C13.accumulate', smod, init, s.tup, f'op columns 6..8 must be the a_ctrl row of the op\'s output line ({line}); found {norm(star.value)}', node=s.call)
-    rep.floor('op tuple sites', n, 5)
+    rep.floor('op tuple sites', n, 5 if not opaque and len(sites) >= 5 else 0)
     flat = [cz(s) for s in body_no_doc(init)]
     ok = 'ifa_ctrlisNone:a_ctrl=np.zeros((len(circuit.lines)+3,3),dtype=np.int32)a_ctrl[:,0]=-1' in flat
     rep.ob('C13.accumulate', 'default a_ctrl rows have index -1 (ignored)', ok)
